@@ -100,10 +100,10 @@ class CtlRig (object):
     import pox.openflow.of_01 as of_01
     import pox.openflow.libopenflow_01 as of
     self.of_01 = of_01
-    self.budget = budget.Budget([of_01.Connection.read, of._unpack_actions,
-                                 of._unpack_queue_props,
-                                 of.ofp_queue_get_config_reply.unpack,
-                                 of.ofp_stats_reply.unpack])
+    # (every function of the modules that handle the bytes - the read loop,
+    #  the decoders, the handlers and whatever helpers they have)
+    import pox.lib.util as _u
+    self.budget = budget.Budget(budget.all_code(of_01, of, _u))
     self.next_dpid = 1000
     self.pins = []
     self.w.core.openflow.addListenerByName("PacketIn", self._pin)
@@ -198,7 +198,7 @@ def ctl_case_handshake (rig, case, rep, fire):
       n += 1
       P["s"].send(marker_pi(n)); sib[id(P["c"])].append(n)
   def run_budget (nbytes):
-    rig.budget.arm(400 + 15 * nbytes)
+    rig.budget.arm(6000 + 400 * nbytes)
     rep.count("budget_armed")
     try:
       w.run(max_steps=400)
@@ -255,7 +255,7 @@ def ctl_case_handshake (rig, case, rep, fire):
       return
   if not closed:
     # finish the handshake; traffic behind it must then come through
-    rig.budget.arm(6000)
+    rig.budget.arm(200000)
     rep.count("budget_armed")
     try:
       rig.finish_peer(X, strict=False)
@@ -358,7 +358,7 @@ def ctl_case (rig, case, rep, fire):
       n += 1
       P["s"].send(marker_pi(n)); sib[id(P["c"])].append(n)
   def run_budget (nbytes):
-    rig.budget.arm(400 + 15 * nbytes)
+    rig.budget.arm(6000 + 400 * nbytes)
     rep.count("budget_armed")
     try:
       w.run(max_steps=400)
@@ -462,13 +462,8 @@ class SwRig (object):
     self.ioloop = iow.RecocoIOLoop()
     self.ioloop.start()
     self.w.run()
-    self.budget = budget.Budget([sw.OFConnection.read] +
-                                # (the loop itself, where read() is a wrapper)
-                                ([sw.OFConnection._read] if hasattr(sw.OFConnection, "_read") else []) +
-                                [of._unpack_actions,
-                                 of._unpack_queue_props,
-                                 of.ofp_queue_get_config_reply.unpack,
-                                 of.ofp_stats_reply.unpack])
+    import pox.lib.util as _u
+    self.budget = budget.Budget(budget.all_code(sw, iow, of, _u))
     self.dpid = 500
 
   def recover (self):
@@ -512,7 +507,7 @@ def sw_case (rig, case, rep, fire):
       n += 1
       P["peer"].send(marker_echo(n)); sib[i].append(n)
   def run_budget (nbytes):
-    rig.budget.arm(400 + 15 * nbytes)
+    rig.budget.arm(6000 + 400 * nbytes)
     rep.count("budget_armed")
     try:
       w.run(max_steps=400)
@@ -795,6 +790,22 @@ def units (side, rng, tier):
     yield "statistics reply left unfinished", \
         port_stats_reply(SIBX, [0xbad], True) + port_stats_reply(SIBX, [0xbad + 1, 0xbad + 2], True)
     yield "statistics reply left unfinished", port_stats_reply(SIBX, [], True)
+  # HELLOs of newer protocol versions: from 1.3.1 on they carry elements
+  # (type, length, data, padded to 8) - well-formed ones, and ones whose
+  # element length is 0, 1..3, one short of / beyond what is there, with no
+  # version bitmap, with a bitmap without / with 1.0 in it; and bodies that
+  # are no elements at all
+  def hello (ver, body):
+    return struct.pack("!BBHL", ver, 0, 8 + len(body), 0x68656c00 | ver) + body
+  for ver in (1, 2, 4, 5, 6, 0x7f, 0xff):
+    for body in (struct.pack("!HHL", 1, 8, 0x12), struct.pack("!HHL", 1, 8, 0x10),
+                 struct.pack("!HHL", 1, 0, 0x12), struct.pack("!HH", 1, 0),
+                 struct.pack("!HHL", 1, 3, 0x12), struct.pack("!HHL", 1, 9, 0x12),
+                 struct.pack("!HHL", 1, 0xffff, 0x12), struct.pack("!HHL", 2, 8, 0) +
+                 struct.pack("!HHL", 1, 8, 0x12), struct.pack("!HHL", 0, 0, 0),
+                 struct.pack("!HHLL", 1, 12, 0x10, 0) + b"\0" * 4,
+                 b"\0" * 4, b"\0" * 8, b"\0" * 16, b"\xff" * 8, b"\0\1\0"):
+      yield "hello of version %d with elements" % ver, hello(ver, body)
   for k, b in corp:
     # the message as it is: valid, but nobody asked for it (and during the
     # handshake there may be no handler for its type at all)
@@ -903,6 +914,9 @@ def run (spec, rep):
       elif ph == 4: case["second_hostile"] = "false_before"
     do_case(case, rep)
     if first: rep.sample(case); first = False
+  for rig in _st.values():
+    # (how close the traffic that did terminate came to the step budget)
+    rep.maxi("step_budget_used_permille", int(1000 * getattr(rig.budget, "max_ratio", 0.0)))
 
 
 def replay (witness, rep):
